@@ -298,8 +298,11 @@ def derived_twins(o):
     return out
 
 
-def chk_derived(ctx, eo):
-    o = decx(eo)
+def chk_derived(ctx, eo, obj=None):
+    o = decx(eo) if obj is None else obj  # in the workload: the very object that has already been compared / hashed / sorted
+    if obj is None and is_meshtype(o):
+        sorted([o, decx(eo)])
+        hash(o)
     for d in derived_twins(o):
         ctx.count("derived.twins")
         if semantically_equal(o, d):
@@ -368,7 +371,7 @@ def run(ctx, spec):
             for j in sorted(others):
                 _pair(a, U2[j])
             _pair(a, a)
-            chk_derived(ctx, encx(a))
+            chk_derived(ctx, encx(a), obj=a)
         ctx.note(f"universe of {len(U)} values; each paired with every value of length <= 1, every basis, its own twin and {spec['sample']} sampled others (second operand a distinct equal-valued object)")
         ctx.sample({"pair": [encx(U[spec["part"]]), encx(U2[-spec["part"] - 1])]})
     elif spec["kind"] == "long":
